@@ -285,7 +285,7 @@ func oneCase(run *harness.Run, key string, c combo, tmp string, n int) {
 	}
 
 	// the live part of the second session
-	p.H2.appendPiece(genPiece(r, "l", 8+r.Intn(12)))
+	p.H2.appendPiece(genPiece(r, "l", 8+r.Intn(12), p.PTxn))
 	stEnd, end2 := sentinelPiece("eb", p.H2.Cmds[len(p.H2.Cmds)-1].DB)
 	p.H2.appendPiece(stEnd)
 
